@@ -3,7 +3,7 @@ import io, os, struct, sys
 sys.path.insert(0, os.path.dirname(__file__))
 from _common import main
 
-BOUND = 'seeded synthetic extract files: random table-index assignments (incl. unconfigured tables), 0..5 rows per table interleaved, every packaged table plus generated layouts (incl. a redefinition of a packaged table name), compressed and expanded, latin_1/cp500, blocked/unblocked; two readers of the same table in one process; files without trailer / tables without configuration'
+BOUND = 'files of several hundred rows (> 64 KiB); seeded synthetic extract files: random table-index assignments (incl. unconfigured tables), 0..5 rows per table interleaved, every packaged table plus generated layouts (incl. a redefinition of a packaged table name), compressed and expanded, latin_1/cp500, blocked/unblocked; two readers of the same table in one process; files without trailer / tables without configuration'
 
 
 def frame(recs, blocked):
@@ -47,7 +47,7 @@ def oracle(inp):
         recs.append('TRAILER RECORD IP0000T1' + ' ' * 40)
     rows = []
     for t in names:
-        for _ in range(rng.randint(0, 5)):
+        for _ in range(rng.randint(0, 5) if not inp.get('big') else rng.randint(8, 14)):
             body = ''.join(rng.choice(alpha) for _ in range(rng.randint(120, 300)))
             rows.append((t, body))
     rng.shuffle(rows)
@@ -96,6 +96,11 @@ def cases(tier, rng):
                     for table in list(config['mci_parameter_tables']) + ['IP0999T1']:
                         gen = table == 'IP0999T1' or seed % 2 == 1
                         yield {'seed': seed, 'enc': enc, 'blocked': blocked, 'expanded': expanded, 'table': table, 'generated': gen, 'two_readers': seed % 3 == 0}
+    # files of several hundred rows (well above 16 / 64 KiB, the usual buffer sizes)
+    for blocked in (True, False):
+        for expanded in (False, True):
+            yield {'seed': 3, 'enc': 'cp500' if expanded else 'latin_1', 'blocked': blocked, 'expanded': expanded, 'table': 'IP0040T1', 'big': True}
+            yield {'seed': 4, 'enc': 'latin_1', 'blocked': blocked, 'expanded': expanded, 'table': 'IP0999T1', 'generated': True, 'big': True}
     yield {'seed': 1, 'enc': 'latin_1', 'blocked': True, 'expanded': False, 'table': 'IP0040T1', 'no_trailer': True}
     yield {'seed': 1, 'enc': 'latin_1', 'blocked': True, 'expanded': False, 'table': 'IP0777T1'}
 
